@@ -433,6 +433,7 @@ def run(prop, tier, replay=None):
         add_vectors("vaa", vectors, "c06")
         add_vectors("explorer", vectors, "c06")
         add_gen("vaa", ["verify"], pl["gen_n"], "c06")
+        add_gen("vaa", ["verifyconc"], pl["gen_n"], "c06conc")
         add_gen("explorer", ["verify"], pl["gen_n"], "c06")
     elif prop == "C07":
         add_vectors("proc", vectors, "c07")
